@@ -8,9 +8,10 @@ from .c03 import edge_has_fact
 EXPLANATION = (
     "Decided: every request kind in Daemon.handleRequest reaches the target object only through a gate (each dynamic call's "
     "callee, and the oneway hand-off, has all its reaching definitions of the form _get_attribute(obj, name); attribute "
-    "reads/writes go through the two property gates; no other dynamic getattr/setattr); each gate's success exits are dominated "
+    "reads/writes go through the two property gates, which are called with exactly (object, name[, value]) so that no request "
+    "data reaches their other parameters; no other dynamic getattr/setattr); each gate's success exits are dominated "
     "by the private-name refusal and the _pyroExposed test, without dotted traversal; the advertised-members routine applies the "
-    "same predicates and the same mark-carrier order; the reserved dunder table contains the 43 reference names and "
+    "same predicates and the same mark-carrier order and caches per class object; the reserved dunder table contains the 43 reference names and "
     "is_private_attribute returns False only for public or non-reserved dunder names; expose marks only own, non-private "
     "members. Not decided: getattr/descriptor behaviour for arbitrary class shapes, unicode look-alikes, non-string names."
 )
